@@ -109,13 +109,27 @@ struct Tight
 // empty, so that no host reference call can touch indeterminate memory.
 struct Roomy
 {
-    std::vector<char> v;
-    explicit Roomy(const Bytes &d) : v(d.size() + 48, 0)
+    char small[192];
+    std::vector<char> big;
+    char *q;
+    explicit Roomy(const Bytes &d)
     {
+        if (d.size() + 48 <= sizeof small)
+        {
+            memset(small, 0, d.size() + 48);
+            q = small;
+        }
+        else
+        {
+            big.assign(d.size() + 48, 0);
+            q = big.data();
+        }
         if (!d.empty())
-            memcpy(v.data(), d.data(), d.size());
+            memcpy(q, d.data(), d.size());
     }
-    char *p() { return v.data(); }
+    Roomy(const Roomy &) = delete;
+    Roomy &operator=(const Roomy &) = delete;
+    char *p() { return q; }
 };
 
 // Destination: [CAN + off canary][region][CAN canary], filled with a
@@ -135,7 +149,7 @@ struct Dst
     char *c() { return (char *)d; }
 };
 
-void check_dst(const char *fn, const Dst &g, const Dst &w, const std::string &args)
+template <class A> void check_dst(const char *fn, const Dst &g, const Dst &w, const A &args)
 {
     if (!memcmp(g.blk.p, w.blk.p, g.blk.n))
         return;
@@ -147,12 +161,12 @@ void check_dst(const char *fn, const Dst &g, const Dst &w, const std::string &ar
     fail(fn, zone,
          fmt("first wrong byte at dest%+ld: got %02x want %02x; region=%zu got=%s want=%s; %s", rel,
              g.blk.p[i], w.blk.p[i], g.region, hexdump(g.d, g.region, 48).c_str(),
-             hexdump(w.d, w.region, 48).c_str(), args.c_str()));
+             hexdump(w.d, w.region, 48).c_str(), args().c_str()));
 }
-void check_src(const char *fn, const Tight &t, const Bytes &orig, const std::string &args)
+template <class A> void check_src(const char *fn, const Tight &t, const Bytes &orig, const A &args)
 {
     if (!t.same(orig))
-        fail(fn, "source_modified", "a read-only operand was written; " + args);
+        fail(fn, "source_modified", "a read-only operand was written; " + args());
 }
 
 // ---------------------------------------------------------------- generators
@@ -363,10 +377,10 @@ struct NArr
     Bytes data;
     bool unterminated = false, junk = false;
 };
-NArr narr(Src &s, const Bytes &str, size_t n, bool allow_unterminated = true)
+NArr narr(Src &s, const Bytes &str, size_t n, unsigned unterm_num = 2)
 {
     NArr r;
-    if (allow_unterminated && str.size() >= n && s.chance(2, 3))
+    if (str.size() >= n && s.chance(unterm_num, 3))
     {
         r.unterminated = true;
         r.data.assign(str.begin(), str.begin() + (long)n);
@@ -405,13 +419,13 @@ bool chk_memcpy(const Bytes &src, size_t so, size_t doff, size_t slack)
     Tight S(src, so);
     Roomy R(src);
     Dst G(n + slack, doff), W(n + slack, doff);
-    std::string args = fmt("memcpy n=%zu src_off=%zu dst_off=%zu src=%s", n, so, doff, hx(src).c_str());
+    auto args = [&]() -> std::string { return fmt("memcpy n=%zu src_off=%zu dst_off=%zu src=%s", n, so, doff, hx(src).c_str()); };
     bool word = n >= 4 * sizeof(long) && (uintptr_t)S.p % sizeof(long) == 0 &&
                 (uintptr_t)G.d % sizeof(long) == 0;
     void *r = igc_memcpy(G.d, S.p, n);
     memcpy(W.d, R.p(), n);
     if (r != G.d)
-        fail("memcpy", "ret", fmt("returned dest%s; ", offs(poff(r, G.d)).c_str()) + args);
+        fail("memcpy", "ret", fmt("returned dest%s; ", offs(poff(r, G.d)).c_str()) + args());
     check_dst("memcpy", G, W, args);
     check_src("memcpy", S, src, args);
     return word;
@@ -440,10 +454,10 @@ bool chk_memmove(const Bytes &content, long d, size_t base, size_t can)
                 (uintptr_t)gs % sizeof(long) == 0 && (uintptr_t)gd % sizeof(long) == 0;
     void *r = igc_memmove(gd, gs, n);
     memmove(W.p + can + dstpos, W.p + can + srcpos, n);
-    std::string args = fmt("memmove n=%zu dst-src=%ld base=%zu canary=%zu content=%s", n, d, base, can,
-                           hx(content).c_str());
+    auto args = [&]() -> std::string { return fmt("memmove n=%zu dst-src=%ld base=%zu canary=%zu content=%s", n, d, base, can,
+                           hx(content).c_str()); };
     if (r != gd)
-        fail("memmove", "ret", fmt("returned dest%s; ", offs(poff(r, gd)).c_str()) + args);
+        fail("memmove", "ret", fmt("returned dest%s; ", offs(poff(r, gd)).c_str()) + args());
     if (memcmp(G.p, W.p, G.n))
     {
         size_t i = 0;
@@ -451,7 +465,7 @@ bool chk_memmove(const Bytes &content, long d, size_t base, size_t can)
             i++;
         long rel = (long)i - (long)(can + dstpos);
         fail("memmove", rel >= 0 && (size_t)rel < n ? "dest" : "outside",
-             fmt("first wrong byte at dest%+ld: got %02x want %02x; ", rel, G.p[i], W.p[i]) + args);
+             fmt("first wrong byte at dest%+ld: got %02x want %02x; ", rel, G.p[i], W.p[i]) + args());
     }
     return word;
 }
@@ -459,11 +473,11 @@ bool chk_memmove(const Bytes &content, long d, size_t base, size_t can)
 void chk_memset(size_t n, int ch, size_t doff, size_t slack)
 {
     Dst G(n + slack, doff), W(n + slack, doff);
-    std::string args = fmt("memset n=%zu c=%d dst_off=%zu", n, ch, doff);
+    auto args = [&]() -> std::string { return fmt("memset n=%zu c=%d dst_off=%zu", n, ch, doff); };
     void *r = igc_memset(G.d, ch, n);
     memset(W.d, ch, n);
     if (r != G.d)
-        fail("memset", "ret", fmt("returned dest%s; ", offs(poff(r, G.d)).c_str()) + args);
+        fail("memset", "ret", fmt("returned dest%s; ", offs(poff(r, G.d)).c_str()) + args());
     check_dst("memset", G, W, args);
 }
 
@@ -529,11 +543,11 @@ void chk_strcpy(const Bytes &str, size_t so, size_t doff, size_t slack)
     Tight S(z, so);
     Roomy R(z);
     Dst G(z.size() + slack, doff), W(z.size() + slack, doff);
-    std::string args = fmt("strcpy src=%s", hx(str).c_str());
+    auto args = [&]() -> std::string { return fmt("strcpy src=%s", hx(str).c_str()); };
     char *r = igc_strcpy(G.c(), S.p);
     strcpy(W.c(), R.p());
     if (r != G.c())
-        fail("strcpy", "ret", fmt("returned dest%s; ", offs(poff(r, G.d)).c_str()) + args);
+        fail("strcpy", "ret", fmt("returned dest%s; ", offs(poff(r, G.d)).c_str()) + args());
     check_dst("strcpy", G, W, args);
     check_src("strcpy", S, z, args);
 }
@@ -543,11 +557,11 @@ void chk_strncpy(const Bytes &arr, size_t n, size_t so, size_t doff, size_t slac
     Tight S(arr, so);
     Roomy R(arr);
     Dst G(n + slack, doff), W(n + slack, doff);
-    std::string args = fmt("strncpy n=%zu src=%s", n, hx(arr).c_str());
+    auto args = [&]() -> std::string { return fmt("strncpy n=%zu src=%s", n, hx(arr).c_str()); };
     char *r = igc_strncpy(G.c(), S.p, n);
     strncpy(W.c(), R.p(), n);
     if (r != G.c())
-        fail("strncpy", "ret", fmt("returned dest%s; ", offs(poff(r, G.d)).c_str()) + args);
+        fail("strncpy", "ret", fmt("returned dest%s; ", offs(poff(r, G.d)).c_str()) + args());
     check_dst("strncpy", G, W, args);
     check_src("strncpy", S, arr, args);
 }
@@ -560,7 +574,7 @@ bool chk_strlcpy(const Bytes &str, size_t size, size_t so, size_t doff, size_t s
     size_t L = str.size();
     Tight S(z, so);
     Dst G(size + slack, doff), W(size + slack, doff);
-    std::string args = fmt("strlcpy size=%zu src=%s", size, hx(str).c_str());
+    auto args = [&]() -> std::string { return fmt("strlcpy size=%zu src=%s", size, hx(str).c_str()); };
     size_t r = igc_strlcpy(G.c(), S.p, size);
     if (size)
     {
@@ -576,16 +590,32 @@ bool chk_strlcpy(const Bytes &str, size_t size, size_t so, size_t doff, size_t s
         return true;
     if (r != L)
         fail("strlcpy", truncated ? "ret_truncated" : "ret",
-             fmt("returned %zu, strlen(src)=%zu; ", r, L) + args);
+             fmt("returned %zu, strlen(src)=%zu; ", r, L) + args());
     return false;
 }
 
-void chk_strcat(const Bytes &dstr, const Bytes &str, size_t so, size_t doff, size_t slack)
+// A read-only operand prepared once: tight igris-side block + roomy host-side
+// copy (the enumeration reuses one Op for many calls).
+struct Op
 {
-    Bytes z = cstr(str);
-    Tight S(z, so);
-    Roomy R(z);
-    size_t region = dstr.size() + str.size() + 1 + slack;
+    const Bytes &d; // must outlive the Op
+    Tight t;
+    Roomy r;
+    Op(const Bytes &d_, size_t off, bool at_start = false) : d(d_), t(d_, off, at_start), r(d_) {}
+    void unchanged(const char *fn) const
+    {
+        if (!t.same(d))
+            fail(fn, "source_modified", "a read-only operand was written: " + hx(d));
+    }
+};
+// what a terminated array shows as a string
+std::string sx(const Bytes &z) { return hexdump(z.data(), slen(z), 40); }
+
+// ---- strcat / strncat: S holds the source (strcat: terminated string; strncat:
+// terminated, or unterminated with >= n bytes)
+void strcat_core(const Bytes &dstr, Op &S, size_t doff, size_t slack)
+{
+    size_t region = dstr.size() + slen(S.d) + 1 + slack;
     Dst G(region, doff), W(region, doff);
     if (!dstr.empty())
     {
@@ -593,20 +623,23 @@ void chk_strcat(const Bytes &dstr, const Bytes &str, size_t so, size_t doff, siz
         memcpy(W.d, dstr.data(), dstr.size());
     }
     G.d[dstr.size()] = W.d[dstr.size()] = 0;
-    std::string args = fmt("strcat dest=%s src=%s", hx(dstr).c_str(), hx(str).c_str());
-    char *r = igc_strcat(G.c(), S.p);
-    strcat(W.c(), R.p());
+    auto args = [&]() -> std::string { return fmt("strcat dest=%s src=%s", hx(dstr).c_str(), sx(S.d).c_str()); };
+    char *r = igc_strcat(G.c(), S.t.p);
+    strcat(W.c(), S.r.p());
     if (r != G.c())
-        fail("strcat", "ret", fmt("returned dest%s; ", offs(poff(r, G.d)).c_str()) + args);
+        fail("strcat", "ret", fmt("returned dest%s; ", offs(poff(r, G.d)).c_str()) + args());
     check_dst("strcat", G, W, args);
-    check_src("strcat", S, z, args);
+    S.unchanged("strcat");
 }
-
-void chk_strncat(const Bytes &dstr, const Bytes &arr, size_t n, size_t so, size_t doff, size_t slack)
+void chk_strcat(const Bytes &dstr, const Bytes &str, size_t so, size_t doff, size_t slack)
 {
-    Tight S(arr, so);
-    Roomy R(arr);
-    size_t copied = strnlen(R.p(), n);
+    Bytes z = cstr(str);
+    Op S(z, so);
+    strcat_core(dstr, S, doff, slack);
+}
+void strncat_core(const Bytes &dstr, Op &S, size_t n, size_t doff, size_t slack)
+{
+    size_t copied = std::min(slen(S.d), n);
     size_t region = dstr.size() + copied + 1 + slack;
     Dst G(region, doff), W(region, doff);
     if (!dstr.empty())
@@ -615,110 +648,135 @@ void chk_strncat(const Bytes &dstr, const Bytes &arr, size_t n, size_t so, size_
         memcpy(W.d, dstr.data(), dstr.size());
     }
     G.d[dstr.size()] = W.d[dstr.size()] = 0;
-    std::string args = fmt("strncat n=%zu dest=%s src=%s", n, hx(dstr).c_str(), hx(arr).c_str());
-    char *r = igc_strncat(G.c(), S.p, n);
-    strncat(W.c(), R.p(), n);
+    auto args = [&]() -> std::string {
+        return fmt("strncat n=%zu dest=%s src=%s", n, hx(dstr).c_str(), hx(S.d).c_str());
+    };
+    char *r = igc_strncat(G.c(), S.t.p, n);
+    strncat(W.c(), S.r.p(), n);
     if (r != G.c())
-        fail("strncat", "ret", fmt("returned dest%s; ", offs(poff(r, G.d)).c_str()) + args);
+        fail("strncat", "ret", fmt("returned dest%s; ", offs(poff(r, G.d)).c_str()) + args());
     check_dst("strncat", G, W, args);
-    check_src("strncat", S, arr, args);
+    S.unchanged("strncat");
+}
+void chk_strncat(const Bytes &dstr, const Bytes &arr, size_t n, size_t so, size_t doff, size_t slack)
+{
+    Op S(arr, so);
+    strncat_core(dstr, S, n, doff, slack);
 }
 
-// ---- comparisons; cs = case-insensitive. a/b: string bytes (terminator appended here)
+// ---- comparisons; cs = case-insensitive. Operands hold terminated strings.
+void cmp_core(bool cs, Op &A, Op &B)
+{
+    int g = sgn(cs ? igc_strcasecmp(A.t.p, B.t.p) : igc_strcmp(A.t.p, B.t.p));
+    int w = sgn(cs ? strcasecmp(A.r.p(), B.r.p()) : strcmp(A.r.p(), B.r.p()));
+    if (g != w)
+        fail(cs ? "strcasecmp" : "strcmp", "sign",
+             fmt("sign got %d want %d; a=%s b=%s", g, w, sx(A.d).c_str(), sx(B.d).c_str()));
+}
 void chk_cmp(bool cs, const Bytes &a, const Bytes &b, size_t ao, size_t bo)
 {
     Bytes az = cstr(a), bz = cstr(b);
-    Tight A(az, ao), B(bz, bo);
-    Roomy RA(az), RB(bz);
-    const char *fn = cs ? "strcasecmp" : "strcmp";
-    int g = sgn(cs ? igc_strcasecmp(A.p, B.p) : igc_strcmp(A.p, B.p));
-    int w = sgn(cs ? strcasecmp(RA.p(), RB.p()) : strcmp(RA.p(), RB.p()));
-    if (g != w)
-        fail(fn, "sign", fmt("sign got %d want %d; a=%s b=%s", g, w, hx(a).c_str(), hx(b).c_str()));
+    Op A(az, ao), B(bz, bo);
+    cmp_core(cs, A, B);
 }
 // arrays: terminated, or unterminated holding >= n bytes
+void ncmp_core(bool cs, Op &A, Op &B, size_t n)
+{
+    int g = sgn(cs ? igc_strncasecmp(A.t.p, B.t.p, n) : igc_strncmp(A.t.p, B.t.p, n));
+    int w = sgn(cs ? strncasecmp(A.r.p(), B.r.p(), n) : strncmp(A.r.p(), B.r.p(), n));
+    if (g != w)
+        fail(cs ? "strncasecmp" : "strncmp", "sign",
+             fmt("sign got %d want %d; n=%zu a=%s b=%s", g, w, n, hx(A.d).c_str(), hx(B.d).c_str()));
+}
 void chk_ncmp(bool cs, const Bytes &a, const Bytes &b, size_t n, size_t ao, size_t bo)
 {
-    Tight A(a, ao), B(b, bo);
-    Roomy RA(a), RB(b);
-    const char *fn = cs ? "strncasecmp" : "strncmp";
-    int g = sgn(cs ? igc_strncasecmp(A.p, B.p, n) : igc_strncmp(A.p, B.p, n));
-    int w = sgn(cs ? strncasecmp(RA.p(), RB.p(), n) : strncmp(RA.p(), RB.p(), n));
-    if (g != w)
-        fail(fn, "sign",
-             fmt("sign got %d want %d; n=%zu a=%s b=%s", g, w, n, hx(a).c_str(), hx(b).c_str()));
+    Op A(a, ao), B(b, bo);
+    ncmp_core(cs, A, B, n);
 }
 
-// ---- character searches: which = 0 strchr, 1 strrchr, 2 strchrnul. Returns the host offset.
-long chk_chr(int which, const Bytes &str, int ch, size_t off, bool at_start)
+// ---- character searches: which = 0 strchr, 1 strrchr, 2 strchrnul. S holds a
+// terminated string. Returns the host offset.
+long chr_core(int which, Op &S, int ch)
 {
     static const char *const names[3] = {"strchr", "strrchr", "strchrnul"};
-    Bytes z = cstr(str);
-    Tight S(z, off, at_start);
-    Roomy R(z);
     long g, w;
     switch (which)
     {
     case 0:
-        g = poff(igc_strchr(S.p, ch), S.p);
-        w = poff(strchr(R.p(), ch), R.p());
+        g = poff(igc_strchr(S.t.p, ch), S.t.p);
+        w = poff(strchr(S.r.p(), ch), S.r.p());
         break;
     case 1:
-        g = poff(igc_strrchr(S.p, ch), S.p);
-        w = poff(strrchr(R.p(), ch), R.p());
+        g = poff(igc_strrchr(S.t.p, ch), S.t.p);
+        w = poff(strrchr(S.r.p(), ch), S.r.p());
         break;
     default:
-        g = poff(igc_strchrnul(S.p, ch), S.p);
-        w = poff(strchrnul(R.p(), ch), R.p());
+        g = poff(igc_strchrnul(S.t.p, ch), S.t.p);
+        w = poff(strchrnul(S.r.p(), ch), S.r.p());
     }
     if (g != w)
         fail(names[which], (char)ch == 0 ? "ret_terminator" : "ret",
              fmt("got %s want %s; c=%d (char %02x) s=%s", offs(g).c_str(), offs(w).c_str(), ch,
-                 (unsigned)(uint8_t)ch, hx(str).c_str()));
+                 (unsigned)(uint8_t)ch, sx(S.d).c_str()));
     return w;
 }
+long chk_chr(int which, const Bytes &str, int ch, size_t off, bool at_start)
+{
+    Bytes z = cstr(str);
+    Op S(z, off, at_start);
+    return chr_core(which, S, ch);
+}
 
-// ---- substring searches. Returns the host offset.
+// ---- substring searches on terminated strings. Returns the host offset.
+long str_core(bool cs, Op &H, Op &N)
+{
+    long g = poff(cs ? igc_strcasestr(H.t.p, N.t.p) : igc_strstr(H.t.p, N.t.p), H.t.p);
+    long w = poff(cs ? strcasestr(H.r.p(), N.r.p()) : strstr(H.r.p(), N.r.p()), H.r.p());
+    if (g != w)
+        fail(cs ? "strcasestr" : "strstr", "ret",
+             fmt("got %s want %s; haystack=%s needle=%s", offs(g).c_str(), offs(w).c_str(), sx(H.d).c_str(),
+                 sx(N.d).c_str()));
+    return w;
+}
 long chk_str(bool cs, const Bytes &hay, const Bytes &needle, size_t ho, size_t no)
 {
     Bytes hz = cstr(hay), nz = cstr(needle);
-    Tight H(hz, ho), N(nz, no);
-    Roomy RH(hz), RN(nz);
-    long g = poff(cs ? igc_strcasestr(H.p, N.p) : igc_strstr(H.p, N.p), H.p);
-    long w = poff(cs ? strcasestr(RH.p(), RN.p()) : strstr(RH.p(), RN.p()), RH.p());
-    if (g != w)
-        fail(cs ? "strcasestr" : "strstr", "ret",
-             fmt("got %s want %s; haystack=%s needle=%s", offs(g).c_str(), offs(w).c_str(),
-                 hx(hay).c_str(), hx(needle).c_str()));
-    return w;
+    Op H(hz, ho), N(nz, no);
+    return str_core(cs, H, N);
 }
 
 // ---- span functions: which = 0 strspn, 1 strcspn, 2 strpbrk. Returns the host result.
-long chk_span(int which, const Bytes &str, const Bytes &set, size_t so, size_t to)
+long span_core(int which, Op &S, Op &T)
 {
     static const char *const names[3] = {"strspn", "strcspn", "strpbrk"};
-    Bytes sz = cstr(str), tz = cstr(set);
-    Tight S(sz, so), T(tz, to);
-    Roomy RS(sz), RT(tz);
     long g, w;
     switch (which)
     {
     case 0:
-        g = (long)igc_strspn(S.p, T.p);
-        w = (long)strspn(RS.p(), RT.p());
+        g = (long)igc_strspn(S.t.p, T.t.p);
+        w = (long)strspn(S.r.p(), T.r.p());
         break;
     case 1:
-        g = (long)igc_strcspn(S.p, T.p);
-        w = (long)strcspn(RS.p(), RT.p());
+        g = (long)igc_strcspn(S.t.p, T.t.p);
+        w = (long)strcspn(S.r.p(), T.r.p());
         break;
     default:
-        g = poff(igc_strpbrk(S.p, T.p), S.p);
-        w = poff(strpbrk(RS.p(), RT.p()), RS.p());
+        g = poff(igc_strpbrk(S.t.p, T.t.p), S.t.p);
+        w = poff(strpbrk(S.r.p(), T.r.p()), S.r.p());
     }
     if (g != w)
         fail(names[which], "ret",
              fmt("got %s want %s; s=%s set=%s", which == 2 ? offs(g).c_str() : fmt("%ld", g).c_str(),
-                 which == 2 ? offs(w).c_str() : fmt("%ld", w).c_str(), hx(str).c_str(), hx(set).c_str()));
+                 which == 2 ? offs(w).c_str() : fmt("%ld", w).c_str(), sx(S.d).c_str(), sx(T.d).c_str()));
+    return w;
+}
+long chk_span(int which, const Bytes &str, const Bytes &set, size_t so, size_t to)
+{
+    Bytes sz = cstr(str), tz = cstr(set);
+    Op S(sz, so), T(tz, to);
+    long w = span_core(which, S, T);
+    S.unchanged("strspn_family");
+    T.unchanged("strspn_family");
     return w;
 }
 
@@ -732,31 +790,29 @@ struct TokStat
 {
     int tokens = 0, calls = 0, set_changes = 0;
 };
-TokStat chk_strtok(bool reent, const Bytes &str, size_t off, const std::vector<Bytes> &sets,
-                   const std::function<size_t()> &next_set)
+struct TokSets // delimiter strings: igris-side and host-side pointers, printable form
+{
+    std::vector<const char *> g, w;
+};
+TokStat tok_core(bool reent, const Bytes &str, size_t off, const TokSets &sets,
+                 const std::function<size_t()> &next_set)
 {
     const char *fn = reent ? "strtok_r" : "strtok";
     Bytes z = cstr(str);
     Tight G(z, off);
     Roomy W(z);
-    std::vector<Bytes> setz;
-    for (auto &d : sets)
-        setz.push_back(cstr(d));
-    std::vector<std::unique_ptr<Tight>> gs;
-    std::vector<std::unique_ptr<Roomy>> ws;
-    for (size_t i = 0; i < setz.size(); i++)
-    {
-        gs.emplace_back(new Tight(setz[i], (i * 5) & 15));
-        ws.emplace_back(new Roomy(setz[i]));
-    }
     // the first call must ignore *saveptr: start from a poisoned value
     char *gsave = (char *)(uintptr_t)0x10, *wsave = (char *)(uintptr_t)0x10;
     TokStat st;
-    std::vector<std::pair<size_t, long>> hist;
+    size_t hist_set[8];
+    long hist_ret[8];
+    size_t nh = 0;
     auto trace = [&]() {
-        std::string t;
-        for (size_t i = 0; i < hist.size(); i++)
-            t += fmt(" #%zu delim=%s->%s", i, hx(sets[hist[i].first]).c_str(), offs(hist[i].second).c_str());
+        std::string t = nh > 8 ? " ..." : "";
+        for (size_t i = nh > 8 ? nh - 8 : 0; i < nh; i++)
+            t += fmt(" #%zu delim=%s->%s", i,
+                     hexdump(sets.w[hist_set[i % 8]], strlen(sets.w[hist_set[i % 8]]), 20).c_str(),
+                     offs(hist_ret[i % 8]).c_str());
         return t;
     };
     size_t prev = (size_t)-1;
@@ -764,16 +820,18 @@ TokStat chk_strtok(bool reent, const Bytes &str, size_t off, const std::vector<B
     bool done = false;
     for (size_t call = 0; call < maxcalls; call++)
     {
-        size_t si = done ? prev : next_set() % sets.size();
+        size_t si = done ? prev : next_set() % sets.g.size();
         if (prev != (size_t)-1 && si != prev)
             st.set_changes++;
         prev = si;
         char *ga = call == 0 ? G.p : nullptr, *wa = call == 0 ? W.p() : nullptr;
-        char *gr = reent ? igc_strtok_r(ga, gs[si]->p, &gsave) : igc_strtok(ga, gs[si]->p);
-        char *wr = reent ? strtok_r(wa, ws[si]->p(), &wsave) : strtok(wa, ws[si]->p());
+        char *gr = reent ? igc_strtok_r(ga, sets.g[si], &gsave) : igc_strtok(ga, sets.g[si]);
+        char *wr = reent ? strtok_r(wa, sets.w[si], &wsave) : strtok(wa, sets.w[si]);
         st.calls++;
         long g = poff(gr, G.p), w = poff(wr, W.p());
-        hist.emplace_back(si, w);
+        hist_set[nh % 8] = si;
+        hist_ret[nh % 8] = w;
+        nh++;
         if (g != w)
             fail(fn, done ? "ret_after_null" : "ret",
                  fmt("call %zu returned %s want %s; s=%s calls:%s", call, offs(g).c_str(), offs(w).c_str(),
@@ -783,8 +841,6 @@ TokStat chk_strtok(bool reent, const Bytes &str, size_t off, const std::vector<B
                  fmt("string buffer differs after call %zu: got %s want %s; s=%s calls:%s", call,
                      hexdump(G.p, z.size(), 48).c_str(), hexdump(W.p(), z.size(), 48).c_str(),
                      hx(str).c_str(), trace().c_str()));
-        if (!gs[si]->same(setz[si]))
-            fail(fn, "source_modified", "delimiter string written; s=" + hx(str) + " calls:" + trace());
         if (done)
             break;
         if (wr)
@@ -798,6 +854,25 @@ TokStat chk_strtok(bool reent, const Bytes &str, size_t off, const std::vector<B
     }
     return st;
 }
+TokStat chk_strtok(bool reent, const Bytes &str, size_t off, const std::vector<Bytes> &sets,
+                   const std::function<size_t()> &next_set)
+{
+    std::vector<Bytes> setz;
+    for (auto &d : sets)
+        setz.push_back(cstr(d));
+    std::vector<std::unique_ptr<Op>> ops;
+    TokSets ts;
+    for (size_t i = 0; i < setz.size(); i++)
+    {
+        ops.emplace_back(new Op(setz[i], (i * 5) & 15));
+        ts.g.push_back(ops[i]->t.p);
+        ts.w.push_back(ops[i]->r.p());
+    }
+    TokStat st = tok_core(reent, str, off, ts, next_set);
+    for (auto &o : ops)
+        o->unchanged(reent ? "strtok_r" : "strtok");
+    return st;
+}
 
 void chk_strdup(const Bytes &str, size_t off)
 {
@@ -809,11 +884,11 @@ void chk_strdup(const Bytes &str, size_t off)
     if (r == S.p)
         fail("strdup", "alias", "returned its argument");
     bool ok = memcmp(r, z.data(), z.size()) == 0; // ASan: the allocation holds strlen+1 bytes
-    std::string got = hexdump(r, z.size(), 48);
+    std::string got = ok ? std::string() : hexdump(r, z.size(), 48);
     free(r); // ASan: r came from malloc
     if (!ok)
         fail("strdup", "content", "copy differs: got " + got + " s=" + hx(str));
-    check_src("strdup", S, z, "s=" + hx(str));
+    check_src("strdup", S, z, [&]() { return "s=" + hx(str); });
 }
 
 // arr: terminated, or unterminated with arr.size() >= n
@@ -822,14 +897,14 @@ void chk_strndup(const Bytes &arr, size_t n, size_t off)
     Tight S(arr, off);
     size_t want = std::min(slen(arr), n);
     char *r = igc_strndup(S.p, n);
-    std::string args = fmt("n=%zu s=%s", n, hx(arr).c_str());
+    auto args = [&]() -> std::string { return fmt("n=%zu s=%s", n, hx(arr).c_str()); };
     if (!r)
-        fail("strndup", "null", "returned NULL; " + args);
+        fail("strndup", "null", "returned NULL; " + args());
     bool ok = (want == 0 || memcmp(r, arr.data(), want) == 0) && r[want] == 0;
-    std::string got = hexdump(r, want + 1, 48);
+    std::string got = ok ? std::string() : hexdump(r, want + 1, 48);
     free(r);
     if (!ok)
-        fail("strndup", "content", "copy differs: got " + got + " " + args);
+        fail("strndup", "content", "copy differs: got " + got + " " + args());
     check_src("strndup", S, arr, args);
 }
 
@@ -853,10 +928,10 @@ size_t chk_case(bool upper, const Bytes &str, size_t doff, size_t slack)
         W.d[i] = ch;
     }
     G.d[L] = W.d[L] = 0;
-    std::string args = "s=" + hx(str);
+    auto args = [&]() -> std::string { return "s=" + hx(str); };
     char *r = upper ? igc_strupr(G.c()) : igc_strlwr(G.c());
     if (r != G.c())
-        fail(fn, "ret", fmt("returned arg%s; ", offs(poff(r, G.d)).c_str()) + args);
+        fail(fn, "ret", fmt("returned arg%s; ", offs(poff(r, G.d)).c_str()) + args());
     check_dst(fn, G, W, args);
     return changed;
 }
@@ -865,7 +940,21 @@ size_t chk_case(bool upper, const Bytes &str, size_t doff, size_t slack)
 void f_memcpy(Src &s, Case &c)
 {
     c.label("memcpy");
-    size_t n = pick_len(s, true), so = pick_off(s), doff = pick_off(s), slack = (size_t)s.below(4);
+    size_t n, so, doff, slack = (size_t)s.below(4);
+    if (s.coin())
+    {
+        // general: any length, any pair of offsets
+        n = pick_len(s, true);
+        so = pick_off(s);
+        doff = pick_off(s);
+    }
+    else
+    {
+        // aimed at the word-copy path: both pointers long-aligned, n >= 4 words
+        n = 4 * sizeof(long) + (size_t)s.range(0, tier() && s.chance(1, 6) ? 1000 : 72);
+        so = s.coin() ? 8 : 0;
+        doff = s.coin() ? 8 : 0;
+    }
     Bytes src = gen(s, n, (int)s.pick({FULL, SPECIAL}), false);
     c.log("memcpy n=%zu src_off=%zu dst_off=%zu slack=%zu src=%s", n, so, doff, slack, hx(src, 200).c_str());
     bool word = chk_memcpy(src, so, doff, slack);
@@ -1532,7 +1621,7 @@ void f_strndup(Src &s, Case &c)
     size_t L = pick_len(s), off = pick_off(s);
     Bytes str = gen(s, L, (int)s.pick({SPECIAL, FULL, LETTERS}), true);
     size_t n = s.chance(1, 12) ? SIZE_MAX : pick_n(s, L);
-    NArr a = narr(s, str, n);
+    NArr a = narr(s, str, n, 1);
     c.log("strndup n=%zu off=%zu %s s=%s", n, off, a.unterminated ? "unterminated" : "terminated",
           hx(a.data, 200).c_str());
     if (a.unterminated)
@@ -1616,51 +1705,63 @@ void f_enum(Src &s, Case &c)
     size_t o1 = (size_t)(ai & 7), o2 = (size_t)(bi & 7);
     const bool k_strlcpy = known_active("C08-strlcpy-return");
 
-    // --- two-string functions on the strings (blocks end at the terminator)
-    chk_cmp(false, a, b, o1, o2);
-    chk_cmp(true, a, b, o1, o2);
-    chk_str(false, a, b, o1, o2);
-    chk_str(true, a, b, o1, o2);
+    Bytes az = cstr(a), bz = cstr(b);
+    Op sa(az, o1), sb(bz, o2); // the strings: blocks end at the terminator
+    Op fa(A, o1), fb(B, o2);   // the full arrays: bytes after an early terminator present
+
+    // --- two-string functions on the strings
+    cmp_core(false, sa, sb);
+    cmp_core(true, sa, sb);
+    str_core(false, sa, sb);
+    str_core(true, sa, sb);
     for (int w = 0; w < 3; w++)
-        chk_span(w, a, b, o1, o2);
-    chk_strcat(a, b, o2, o1, 1);
-    // --- n-functions on the full arrays (bytes after an early terminator present)
-    for (size_t n = 0; n <= (size_t)N + 2; n++)
+        span_core(w, sa, sb);
+    strcat_core(a, sb, o1, 1);
+    // --- n-functions on the full arrays, every n up to one past the last byte
+    for (size_t n = 0; n <= (size_t)N + 1; n++)
     {
-        chk_ncmp(false, A, B, n, o1, o2);
-        chk_ncmp(true, A, B, n, o1, o2);
-        chk_strncat(a, B, n, o2, o1, 1);
-        if (n <= (size_t)N + 1)
-            chk_memcmp(A, B, n, o1, o2);
+        ncmp_core(false, fa, fb, n);
+        ncmp_core(true, fa, fb, n);
+        strncat_core(a, fb, n, o1, 1);
+        chk_memcmp(A, B, n, o1, o2);
         // unterminated operands: exactly n bytes, when the strings are that long
-        if (La >= n && Lb >= n)
-        {
-            Bytes ua(a.begin(), a.begin() + (long)n), ub(b.begin(), b.begin() + (long)n);
-            chk_ncmp(false, ua, ub, n, o1, o2);
-            chk_ncmp(true, ua, ub, n, o1, o2);
-        }
         if (Lb >= n)
-            chk_strncat(a, Bytes(b.begin(), b.begin() + (long)n), n, o2, o1, 0);
+        {
+            Bytes ub(b.begin(), b.begin() + (long)n);
+            Op xb(ub, o2);
+            strncat_core(a, xb, n, o1, 0);
+            if (La >= n)
+            {
+                Bytes ua(a.begin(), a.begin() + (long)n);
+                Op xa(ua, o1);
+                ncmp_core(false, xa, xb, n);
+                ncmp_core(true, xa, xb, n);
+            }
+        }
     }
-    // --- strtok(_r): string a, delimiter sets from b
+    // --- strtok(_r): string a, delimiter sets b and b without its first character
     {
-        std::vector<Bytes> sets;
-        sets.push_back(b);
-        sets.push_back(Lb ? Bytes(b.begin() + 1, b.end()) : Bytes());
+        TokSets ts;
+        ts.g = {sb.t.p, sb.t.p + (Lb ? 1 : 0)};
+        ts.w = {sb.r.p(), sb.r.p() + (Lb ? 1 : 0)};
         size_t i = 0;
         auto same = [&]() -> size_t { return 0; };
         auto alt = [&]() -> size_t { return i++ & 1; };
-        TokStat st = chk_strtok(true, a, o1, sets, same);
-        chk_strtok(false, a, o1, sets, same);
+        TokStat st = tok_core(true, a, o1, ts, same);
+        tok_core(false, a, o1, ts, same);
         if (st.tokens)
             c.label("enum:tokens");
-        if (Lb >= 2)
+        if (Lb >= 2 && st.tokens)
         {
-            chk_strtok(true, a, o1, sets, alt);
+            tok_core(true, a, o1, ts, alt);
             i = 0;
-            chk_strtok(false, a, o1, sets, alt);
+            tok_core(false, a, o1, ts, alt);
         }
     }
+    sa.unchanged("enum");
+    sb.unchanged("enum");
+    fa.unchanged("enum");
+    fb.unchanged("enum");
     c.label("enum:pair");
     if (bi >= 4)
         return;
